@@ -210,6 +210,10 @@ func c08(w *core.World, r *core.Report) {
 	r.Rule("ALL-ACTORS-EXCLUDED", 4, "when the resolvers are seeded from the intended-store index, the stored content of EVERY intent of the transaction is excluded: the filters handed to GetBranchesHighesPrecedence are built in a loop over TreeContext.GetActualOwners() with CacheUpdateFilterExcludeOwner (or by one constructor of package tree that is handed the owners and whose closure rejects an update of ANY listed owner: 'false' on the equal outcome of the owner comparison, never 'true' on the unequal one), SetActualOwner records every owner it is given, and lowlevelTransactionSet calls it for every intent before FinishInsertionPhase.")
 	ruleAllActorsExcluded(w, r, pop, low)
 
+	// ---- PATH-FRESH (shared with C11): getRegularDeletes appends the old case's name to the path SdcpbPath() returns
+	r.Rule("PATH-FRESH", 2, "(shared with C11) sharedEntryAttributes.SdcpbPath / SdcpbPathInternal build the entry's path per call; the returned path is not one kept in a field of the entry. getRegularDeletes extends that path by the deactivated case: on a memoised, shared path the second computation of the deletes (the one that is sent) addresses <container>/<case>/<case>.")
+	rulePathFresh(w, r)
+
 	// ---- DELETE-PAIR (shared with C01)
 	r.Rule("DELETE-PAIR", 1, "(shared with C01) the synthetic delete of the deactivated case addresses the same node in its device path and its store path.")
 	for _, c := range core.CallsTo(reg, "tree.NewDeleteEntryImpl") {
@@ -299,6 +303,26 @@ func c08(w *core.World, r *core.Report) {
 			}
 			sl := core.BackwardSlice(pop, in, []ssa.Instruction{c})
 			r.Check(sl.HasCallTo("tree.TreeCacheClient.GetBranchesHighesPrecedence"), "CONSULTS", core.Site(pop, "value from the index"), w.InstrPos(c), "stored content of other owners")
+			// ... for EVERY member: the lookup that feeds the value is not skipped because of what the tree holds for
+			// the member (the tree holds only what the transaction touches; an intent that does not act may hold a
+			// better value on another leaf of the same case)
+			for v := range sl.Values {
+				ic, isCall := v.(*ssa.Call)
+				if !isCall || !core.CalleeIs(ic, "tree.TreeCacheClient.GetBranchesHighesPrecedence") {
+					continue
+				}
+				if ia := core.CallArgs(ic); len(ia) == 3 && core.IsNilConst(ia[2]) {
+					continue // the unfiltered lookup of the 'stored before' comparison
+				}
+				dep := false
+				for _, cond := range core.ControlConds(ic) {
+					cs := core.DataSlice(pop, []ssa.Value{cond})
+					if cs.HasCallTo("tree.Entry.getHighestPrecedenceValueOfBranch", "tree.childMap.GetEntry") {
+						dep = true
+					}
+				}
+				r.Check(!dep, "CONSULTS", core.Site(pop, "index consulted whatever the tree holds"), w.InstrPos(ic), "the index lookup that feeds the case value is skipped depending on the member's content in the tree: contributions of intents that do not take part in the transaction are then not counted")
+			}
 			// the tree's value, or: this SetValue is the branch for a member that has no entry in the tree (decided by
 			// the child lookup) while another SetValue takes the tree's value into account
 			fromTree := sl.HasCallTo("tree.Entry.getHighestPrecedenceValueOfBranch") || (anyTree && sl.HasCallTo("tree.childMap.GetEntry"))
@@ -343,44 +367,13 @@ func c10(w *core.World, r *core.Report) {
 	r.Rule("LEAFLIST-RECURSE", 4, "(shared with C12) the value renderers of the encodings (GetJsonValue for JSON / JSON_IETF, TypedValueToXML and valueAsString for NETCONF, ToGNMITypedValue for gNMI proto) convert the elements of a leaf-list by calling THEMSELVES in the element loop: an element gets exactly the rendering a leaf of that kind gets in that encoding (module-qualified identityref in JSON_IETF, decimal64 as number text), so all encodings denote the same element values.")
 	ruleLeaflistRecurse(w, r, "LEAFLIST-RECURSE", map[string]bool{"GetJsonValue": true, "TypedValueToXML": true, "valueAsString": true, "ToGNMITypedValue": true})
 
+	// ---- LOSSY (shared with C12)
+	r.Rule("LOSSY", 5, "(shared with C12) no encoding renders a value through a lossy numeric conversion (64-bit integer or decimal64 digits -> float64, narrowing, sign change) in pkg/utils, pkg/tree, pkg/datastore and the netconf package: a decimal64 that goes through float64 in one encoding only no longer denotes the value the other encodings carry.")
+	ruleLossy(w, r, "LOSSY")
+
 	// ---- ALL-DELETES-SENT
 	r.Rule("ALL-DELETES-SENT", 1, "RootEntry.ToProtoDeletes (the delete list of gNMI proto / JSON / JSON_IETF) hands on every delete that GetDeletes computed - the same set the XML renderer walks: the returned list is filled by one append inside the loop over the GetDeletes result, and no path through the loop body reaches the next element without that append or a return. A 'de-duplication' or 'covered by another delete' filter here makes the encodings disagree on what is deleted.")
-	if f := w.Func("pkg/tree", "RootEntry", "ToProtoDeletes"); f != nil {
-		ok, why := false, "no append of the converted delete path inside the loop over the GetDeletes result"
-		for _, c := range core.Calls(f) {
-			cc, isCall := c.(*ssa.Call)
-			if !isCall {
-				continue
-			}
-			bi, isB := cc.Call.Value.(*ssa.Builtin)
-			if !isB || bi.Name() != "append" || !core.OnCycle(cc) {
-				continue
-			}
-			// the loop header: index < len(<GetDeletes result>)
-			var head *ssa.If
-			for _, g := range core.GuardsOf(cc) {
-				if bo, isBo := g.If.Cond.(*ssa.BinOp); isBo && bo.Op == token.LSS && g.CondTrue() {
-					if lc, isL := bo.Y.(*ssa.Call); isL {
-						if lb, isLB := lc.Call.Value.(*ssa.Builtin); isLB && lb.Name() == "len" {
-							for _, oc := range core.OriginCalls(lc.Call.Args[0]) {
-								if strings.HasSuffix(core.CalleeKey(oc), ".GetDeletes") {
-									head = g.If
-								}
-							}
-						}
-					}
-				}
-			}
-			if head == nil {
-				continue
-			}
-			body := head.Block().Succs[0]
-			skip, tr := core.PathQuery{Avoid: func(in ssa.Instruction) bool { return in == ssa.Instruction(cc) }}.Reaches(body, 0, func(in ssa.Instruction) bool { return in == ssa.Instruction(head) })
-			ok = !skip
-			why = fmt.Sprintf("an iteration reaches the next delete without handing this one on (blocks %v)", tr)
-		}
-		r.Check(ok, "ALL-DELETES-SENT", core.Site(f, "every computed delete is handed on"), w.Pos(f.Pos()), why)
-	}
+	ruleAllDeletesSent(w, r)
 
 	// ---- FORWARD
 	r.Rule("FORWARD", 8, "the recursive encoders (toXmlInternal, toJsonInternal, GetHighestPrecedence, GetDeletes) pass every option parameter of the caller unchanged and in the same position to every recursive call; toXmlInternal hands operationWithNamespace / useOperationRemove (and onlyNewOrUpdated) unchanged to AddXMLOperation / TypedValueToXML; the public entry points (ToXML, ToJson, ToJsonIETF, TargetSourceReplace.ToXML) forward their parameters.")
@@ -940,6 +933,46 @@ func excludesEveryOwner(g *ssa.Function) bool {
 		}
 	}
 	return nEq > 0
+}
+
+// ruleAllDeletesSent (C10, C03): ToProtoDeletes hands on every delete GetDeletes computed.
+func ruleAllDeletesSent(w *core.World, r *core.Report) {
+	if f := w.Func("pkg/tree", "RootEntry", "ToProtoDeletes"); f != nil {
+		ok, why := false, "no append of the converted delete path inside the loop over the GetDeletes result"
+		for _, c := range core.Calls(f) {
+			cc, isCall := c.(*ssa.Call)
+			if !isCall {
+				continue
+			}
+			bi, isB := cc.Call.Value.(*ssa.Builtin)
+			if !isB || bi.Name() != "append" || !core.OnCycle(cc) {
+				continue
+			}
+			// the loop header: index < len(<GetDeletes result>)
+			var head *ssa.If
+			for _, g := range core.GuardsOf(cc) {
+				if bo, isBo := g.If.Cond.(*ssa.BinOp); isBo && bo.Op == token.LSS && g.CondTrue() {
+					if lc, isL := bo.Y.(*ssa.Call); isL {
+						if lb, isLB := lc.Call.Value.(*ssa.Builtin); isLB && lb.Name() == "len" {
+							for _, oc := range core.OriginCalls(lc.Call.Args[0]) {
+								if strings.HasSuffix(core.CalleeKey(oc), ".GetDeletes") {
+									head = g.If
+								}
+							}
+						}
+					}
+				}
+			}
+			if head == nil {
+				continue
+			}
+			body := head.Block().Succs[0]
+			skip, tr := core.PathQuery{Avoid: func(in ssa.Instruction) bool { return in == ssa.Instruction(cc) }}.Reaches(body, 0, func(in ssa.Instruction) bool { return in == ssa.Instruction(head) })
+			ok = !skip
+			why = fmt.Sprintf("an iteration reaches the next delete without handing this one on (blocks %v)", tr)
+		}
+		r.Check(ok, "ALL-DELETES-SENT", core.Site(f, "every computed delete is handed on"), w.Pos(f.Pos()), why)
+	}
 }
 
 // ruleBranchWhole (C08, C09): GetBranchesHighesPrecedence answers from a walk over the whole index, for this call's
